@@ -821,7 +821,7 @@ def slice_item(toks, pat_text, repl_text, unit_line, log, what, extra_caps=None,
     rep = instantiate(repl_text, caps, unit_line)
     if rep:
         rep[0].ws = toks[0].ws
-    log.append((what, toks[s].file, toks[s].line, 'slice `%s` -> `%s`' % (' '.join(render(toks[s:e]).split())[:160], ' '.join(render(rep).split())[:160])))
+    log.append((what, toks[s].file, toks[s].line, 'slice [lines %d-%d] `%s` -> `%s`' % (toks[s].line, toks[e - 1].line, ' '.join(render(toks[s:e]).split())[:160], ' '.join(render(rep).split())[:160])))
     return rep
 
 
